@@ -206,7 +206,7 @@ def shard_worker(args):
                     continue
                 stats['scenarios'] += 1
                 stats['ops'] += len(li)
-                verdicts = prop.judge(sc, li, lo) if not sc.get('no_judge') else []
+                verdicts = prop.judge(*prop.judge_view(sc, li, lo)) if not sc.get('no_judge') else []
                 for (clause, detail) in verdicts:
                     nfail += 1
                     if len(failures) < 20 or not any(f['kind'] == 'judge' and f.get('clause') == clause for f in failures):
@@ -220,10 +220,11 @@ def shard_worker(args):
                         if len(failures) < 20 or not any(f['kind'] == 'correspondence' for f in failures):
                             failures.append({'kind': 'correspondence', 'scenario': sc, 'line': d, 'op': li[d],
                                              'impl': lo[d] if d < len(lo) else '<missing>', 'model': mo[d] if d < len(mo) else '<missing>'})
-                key = prop.nontrivial_key(sc, li, lo)
+                vsc, vli, vlo = prop.judge_view(sc, li, lo)
+                key = prop.nontrivial_key(vsc, vli, vlo)
                 if key is not None:
                     keys.add(tuple_key(key))
-                prop.tally(stats['dist'], sc, li, lo)
+                prop.tally(stats['dist'], vsc, vli, vlo)
                 if len(samples) < 2 and shard == 0:
                     samples.append({'ops': [x[:400] for x in li[:12]], 'impl_out': [x[:400] for x in lo[:12]]})
 
@@ -267,7 +268,7 @@ def eval_one(prop, sc, judge_only=False):
         li, lo = prop.run_impl(sc)
     except Exception:
         return 'harness', {'detail': traceback.format_exc()[-500:]}
-    v = prop.judge(sc, li, lo) if not sc.get('no_judge') else []
+    v = prop.judge(*prop.judge_view(sc, li, lo)) if not sc.get('no_judge') else []
     if v:
         return 'judge', {'clause': v[0][0], 'detail': v[0][1], 'lines_in': li, 'impl_out': lo}
     if judge_only or sc.get('no_model'):
